@@ -9,9 +9,12 @@ EXTENDS BtAbs
 
 CONSTANTS Which, MaxOps, MaxT, Slice
 
-VARIABLES st, ops, last
+VARIABLES st, ops, last, lastop
 
-vars == <<st, ops, last>>
+vars == <<st, ops, last, lastop>>
+\* lastop (the operation with its arguments, for replay into the code) is an
+\* observation variable: the exhaustive configurations hide it with this VIEW
+View == <<st, ops, last>>
 
 Px3(a, b, c) == <<R(a), R(b), R(c)>>
 NoTab == <<>>
@@ -70,44 +73,49 @@ C == CASE Which = "FIzero"  -> CfgFI("zero")
        [] OTHER             -> CfgF2("zero", 0, 1)
 
 
-Init == st = InitState(C) /\ ops = 0 /\ last = "init"
+OpRec(op, node, child, a, b, flow, upd, date) ==
+  [op |-> op, node |-> node, child |-> child, a |-> a, b |-> b, flow |-> flow, upd |-> upd, date |-> date]
+\* the configuration is printed once so that replay drivers can build the same tree
+ASSUME PrintT(<<"CFG", C>>)
+Init == st = InitState(C) /\ ops = 0 /\ last = "init" /\ lastop = OpRec("init", 1, 1, Zero, Zero, TRUE, TRUE, 0)
 
 Amounts == IF Slice = 1 THEN {R(250), R(-60)} ELSE IF Slice = 3 THEN {R(250)} ELSE {R(55), R(-130), R(400)}
 Weights == IF Slice = 1 THEN {Rat(1, 2), Rat(1, 4)} ELSE IF Slice = 3 THEN {Rat(1, 2)}
            ELSE {Rat(-1, 2), One, Rat(3, 2)}
 
-Step(r, name) == st' = r.st /\ ops' = ops + 1 /\ last' = name
+Step(r, name, rec) == st' = r.st /\ ops' = ops + 1 /\ last' = name /\ lastop' = rec
 
 DoAdjust ==
   \E a \in {R(1000), R(-100)}, f \in BOOLEAN, u \in BOOLEAN :
      /\ st.t > 0 \/ (f /\ u)
-     /\ Step(AdjustOp(C, R0(st), Root, a, f, Zero, u), "adjust")
-DoRefresh == st.t > 0 /\ Step(UpdateOp(C, R0(st), st.t), "refresh")
+     /\ Step(AdjustOp(C, R0(st), Root, a, f, Zero, u), "adjust", OpRec("adjust", Root, 1, a, Zero, f, u, 0))
+DoRefresh == st.t > 0 /\ Step(UpdateOp(C, R0(st), st.t), "refresh", OpRec("update", Root, 1, Zero, Zero, TRUE, TRUE, st.t))
 DoAdvance ==
   /\ st.fresh /\ st.t < MaxT
   /\ ~OpenOnMissing(C, st, st.t + 1)
   /\ st' = UpdateOp(C, R0(st), st.t + 1).st /\ ops' = 0 /\ last' = "advance"
+  /\ lastop' = OpRec("update", Root, 1, Zero, Zero, TRUE, TRUE, st.t + 1)
 Tradable(x) == st.t > 0 /\ ~PriceUnusable(C, st, x)
 SubTradable(n) == \A x \in Nodes(C) : (IsSec(C, x) /\ InSubtree(C, x, n)) => Tradable(x)
 DoAllocate ==
   \E n \in Nodes(C) \ {Root}, a \in Amounts, u \in BOOLEAN :
      /\ SubTradable(n)
-     /\ Step(AllocateOp(C, R0(st), n, a, u), "allocate")
+     /\ Step(AllocateOp(C, R0(st), n, a, u), "allocate", OpRec("allocate", n, 1, a, Zero, TRUE, u, 0))
 DoRebalance ==
   \E s \in Strats(C), w \in Weights, u \in BOOLEAN : \E c \in {k \in Nodes(C) \ {Root} : C.par[k] = s} :
      /\ SubTradable(c)
-     /\ Step(RebalanceOp(C, R0(st), s, w, c, NaN, u), "rebalance")
+     /\ Step(RebalanceOp(C, R0(st), s, w, c, NaN, u), "rebalance", OpRec("rebalance", s, c, w, NaN, TRUE, u, 0))
 DoClose ==
   \E s \in Strats(C), u \in BOOLEAN : \E c \in {k \in Nodes(C) \ {Root} : C.par[k] = s} :
      /\ SubTradable(c)
-     /\ Step(CloseOp(C, R0(st), s, c, u), "close")
+     /\ Step(CloseOp(C, R0(st), s, c, u), "close", OpRec("close", s, c, Zero, Zero, TRUE, u, 0))
 DoFlatten ==
-  \E s \in Strats(C) : SubTradable(s) /\ st.fresh /\ Step(FlattenOp(C, R0(st), s), "flatten")
+  \E s \in Strats(C) : SubTradable(s) /\ st.fresh /\ Step(FlattenOp(C, R0(st), s), "flatten", OpRec("flatten", s, 1, Zero, Zero, TRUE, TRUE, 0))
 
 DoTransact ==
   \E x \in Secs(C), q \in {R(10), R(-4)}, u \in BOOLEAN :
      /\ C.fi[Root] /\ Tradable(x)
-     /\ Step(TransactOp(C, R0(st), x, q, NaN, u), "transact")
+     /\ Step(TransactOp(C, R0(st), x, q, NaN, u), "transact", OpRec("transact", x, 1, q, NaN, TRUE, u, 0))
 Trade == IF C.fi[Root] THEN DoTransact \/ DoRebalance \/ DoClose \/ DoFlatten
          ELSE DoAllocate \/ DoRebalance \/ DoClose \/ DoFlatten
 Next ==
